@@ -12,7 +12,9 @@ import (
 	"sort"
 	"strconv"
 	"strings"
+	"sync/atomic"
 	"testing"
+	"time"
 
 	"go.opentelemetry.io/collector/component"
 	"go.opentelemetry.io/collector/component/componenttest"
@@ -196,6 +198,35 @@ func vC01ShutErr(rnd *rand.Rand, depth int) (error, string) {
 	}
 	e, s := vC01OtherErr(rnd, depth+1, rnd.IntN(3) == 0)
 	return experr.NewShutdownErr(e), "S(" + s + ")"
+}
+
+// ---- watchdog: a harness must always terminate ----
+
+var vC01Progress atomic.Int64 // bumped by every operation
+var vC01LastOp atomic.Value    // string: the op about to be executed
+
+// vC01Watchdog ends the test process when no operation has completed for a while (a changed queue may spin forever
+// inside Read / Start, e.g. on indexes decoded from bytes it cannot read back): the hanging case is reported as a
+// violation with its case number, then the process exits so the run does not wait for the go test timeout.
+func vC01Watchdog(out *vOut, curCase *atomic.Int64) {
+	go func() {
+		last, idle := int64(-1), 0
+		for {
+			time.Sleep(time.Second)
+			if p := vC01Progress.Load(); p != last {
+				last, idle = p, 0
+				continue
+			}
+			idle++
+			if idle >= 45 {
+				op, _ := vC01LastOp.Load().(string)
+				out.Linef("viol sig=C01/hang/operation-does-not-return case=%d op=%s", curCase.Load(), vHex(op))
+				out.Linef("end")
+				out.Flush()
+				os.Exit(1)
+			}
+		}
+	}()
 }
 
 // ---- script interpreter ----
@@ -397,6 +428,8 @@ func (r *vC01Run) alive() bool { return r.pq != nil }
 
 // do executes one op on the implementation and writes its op/obs lines.
 func (r *vC01Run) do(op vC01Op) {
+	vC01LastOp.Store(fmt.Sprintf("%s die=%d errs=%s", op.kind, op.die, vC01Errs(op.errs)))
+	defer vC01Progress.Add(1)
 	r.nops++
 	r.stats["op_"+op.kind]++
 	if op.die > 0 {
@@ -834,7 +867,11 @@ func TestVerifC01PQ(t *testing.T) {
 	out.Linef("model c01-pq 1")
 	corpus := vC01Corpus()
 	n := vN(2000)
+	var curCase atomic.Int64
+	vC01Watchdog(out, &curCase)
 	for _, c := range vCases(n) {
+		curCase.Store(int64(c))
+		vC01Progress.Add(1)
 		if c < len(corpus) {
 			k := corpus[c]
 			r := vC01NewRun(out, c, k.capacity, k.reqSized, "corpus")
